@@ -2105,3 +2105,204 @@ def dropout(qn, native):
 
 reg(_P, "aten::dropout", dropout, native=False)
 reg(_P, "aten::native_dropout", dropout, native=True)
+
+# ---------------------------------------------------------------------------------------------
+# misc elementwise / scatter-like ops of the covered families
+
+
+def ternary(qn, kind):
+    """addcmul/addcdiv(self, t1, t2, *, value=1); lerp.Scalar(self, end, weight: Scalar); lerp.Tensor(self, end, weight)."""
+    dts = adm(qn)
+
+    def mk(dt, v):
+        def b(g):
+            if v == "broadcast":
+                a, bb = g.dims(2)
+                s0, s1, s2 = [a, bb], [bb], [a, 1]
+            elif v == "0-d":
+                s0 = s1 = s2 = []
+            elif v == "0-d-others":
+                s0, s1, s2 = g.dims(2), [], []
+            elif v == "size0":
+                s0 = s1 = s2 = [0, 3]
+            else:
+                s0 = s1 = s2 = g.shape("nd")
+            x = g.t(s0, dt, "small")
+            if kind in ("addcmul", "addcdiv"):
+                t1, t2 = g.t(s1, dt, "small"), g.t(s2, dt, "nz" if kind == "addcdiv" else "small")
+                kw = {"value=omitted": {}, "value": {"value": 0.5 if is_float(dt) else 2}, "value=pyint": {"value": 3}}.get(v, {})
+                return [x, t1, t2], kw
+            end = g.t(s1, dt, "small")
+            if kind == "lerp_scalar":
+                return [x, end, {"weight>1": 1.5, "weight<0": -0.5}.get(v, 0.25)], {}
+            return [x, end, g.t(s2, dt, "prob")], {}
+        return b
+
+    extra = ["value", "value=pyint"] if kind in ("addcmul", "addcdiv") else (["weight>1", "weight<0"] if kind == "lerp_scalar" else [])
+    for dt in dts:
+        yield S(f"same-shape/{dt}", mk(dt, "same"), scale=4.0)
+    for dt in lead(dts, ("f32", "i64")):
+        for v in ["broadcast", "0-d", "0-d-others", "size0"] + extra:
+            yield S(f"{v}/{dt}", mk(dt, v), scale=4.0)
+
+
+_X = "misc"
+reg(_X, "aten::addcmul", ternary, kind="addcmul")
+reg(_X, "aten::addcdiv", ternary, kind="addcdiv")
+reg(_X, "aten::lerp.Scalar", ternary, kind="lerp_scalar")
+reg(_X, "aten::lerp.Tensor", ternary, kind="lerp_tensor")
+
+
+def prelu(qn):
+    """aten::prelu takes a 1-D weight ([C] or [1]); aten::_prelu_kernel is what prelu decomposes to: weight already reshaped to
+    [1, C, 1, ...] (same rank as self).  A weight of self's full shape is legal for the kernel op too (own class)."""
+    kernel = qn == "aten::_prelu_kernel"
+    fl = [d for d in adm(qn) if is_float(d)]
+
+    def w(g, dt, c, rank):
+        if not kernel:
+            return g.t([c], dt, "prob")
+        return g.t(([1, c] + [1] * (rank - 2)) if rank >= 2 else ([c] if rank == 1 else []), dt, "prob")
+
+    for dt in fl:
+        yield S(f"weight-per-channel/r3/{dt}", (lambda g, dt=dt: (lambda c: ([g.t([2, c, 3], dt), w(g, dt, c, 3)], {}))(g.r.randint(2, 4))))
+    for dt in lead(fl, ("f32",)):
+        yield S(f"weight-single/r3/{dt}", (lambda g, dt=dt: ([g.t([2, 3, 4], dt), w(g, dt, 1, 3)], {})))
+        yield S(f"weight-per-channel/r2/{dt}", (lambda g, dt=dt: ([g.t([3, 4], dt), w(g, dt, 4, 2)], {})))
+        yield S(f"weight-per-channel/r4/{dt}", (lambda g, dt=dt: ([g.t([2, 3, 2, 2], dt), w(g, dt, 3, 4)], {})))
+        yield S(f"weight-single/r1/{dt}", (lambda g, dt=dt: ([g.t([4], dt), w(g, dt, 1, 1)], {})))
+        yield S(f"0-d/{dt}", (lambda g, dt=dt: ([g.t([], dt), g.t([1] if not kernel else [], dt, "prob")], {})))
+        yield S(f"size0-batch/{dt}", (lambda g, dt=dt: ([g.t([0, 3, 2], dt), w(g, dt, 3, 3)], {})))
+        if kernel:
+            yield S(f"weight-full-shape/{dt}", (lambda g, dt=dt: ([g.t([2, 3], dt), g.t([2, 3], dt, "prob")], {})))
+
+
+reg(_X, ["aten::prelu", "aten::_prelu_kernel"], prelu)
+reg(_X, "aten::glu", one_tensor, variants=[
+    ("dim=omitted", lambda g, dt: ([g.t([3, 4], dt, "small")], {})), ("dim=0", lambda g, dt: ([g.t([4, 3], dt, "small"), 0], {})),
+    ("dim=-rank", lambda g, dt: ([g.t([2, 3, 2], dt, "small"), -3], {})), ("dim=-1", lambda g, dt: ([g.t([2, 6], dt, "small"), -1], {})),
+    ("r1", lambda g, dt: ([g.t([6], dt, "small")], {})), ("size0-other", lambda g, dt: ([g.t([0, 4], dt)], {})), ("half=1", lambda g, dt: ([g.t([3, 2], dt, "small")], {})),
+], lead_only=("f32",))
+reg(_X, "aten::mse_loss", one_tensor, variants=[
+    ("reduction=omitted", lambda g, dt: (lambda s: ([g.t(s, dt), g.t(s, dt)], {}))(g.shape("nd"))),
+    ("reduction=none", lambda g, dt: (lambda s: ([g.t(s, dt), g.t(s, dt), 0], {}))(g.shape("nd"))),
+    ("reduction=mean", lambda g, dt: (lambda s: ([g.t(s, dt), g.t(s, dt), 1], {}))(g.shape("nd"))),
+    ("reduction=sum", lambda g, dt: (lambda s: ([g.t(s, dt), g.t(s, dt), 2], {}))(g.shape("nd"))),
+    ("0-d", lambda g, dt: ([g.t([], dt), g.t([], dt)], {})), ("broadcast-target", lambda g, dt: ([g.t([3, 4], dt), g.t([4], dt), 2], {})),
+], lead_only=("f32",))
+
+
+def scatter_like(qn, kind):
+    dts = adm(qn)
+    V = {
+        "select_scatter": {"plain": lambda g, dt: ([g.t([3, 4], dt), g.t([4], dt), 0, 1], {}), "dim=1": lambda g, dt: ([g.t([3, 4], dt), g.t([3], dt), 1, 2], {}),
+                           "negative-dim": lambda g, dt: ([g.t([3, 4], dt), g.t([3], dt), -1, 0], {}), "negative-index": lambda g, dt: ([g.t([3, 4], dt), g.t([4], dt), 0, -1], {}),
+                           "dim=-rank": lambda g, dt: ([g.t([3, 4], dt), g.t([4], dt), -2, 2], {}), "r1-0-d-src": lambda g, dt: ([g.t([4], dt), g.t([], dt), 0, 1], {}),
+                           "r3": lambda g, dt: ([g.t([2, 3, 4], dt), g.t([2, 4], dt), 1, 1], {})},
+        "slice_scatter": {"plain": lambda g, dt: ([g.t([5, 3], dt), g.t([2, 3], dt), 0, 1, 3], {}), "defaults": lambda g, dt: ([g.t([5, 3], dt), g.t([5, 3], dt)], {}),
+                          "dim=1": lambda g, dt: ([g.t([3, 5], dt), g.t([3, 2], dt), 1, 2, 4], {}), "negative-dim": lambda g, dt: ([g.t([3, 5], dt), g.t([3, 2], dt), -1, 0, 2], {}),
+                          "step=2": lambda g, dt: ([g.t([6, 2], dt), g.t([3, 2], dt), 0, 0, 6, 2], {}), "negative-start": lambda g, dt: ([g.t([5, 2], dt), g.t([2, 2], dt), 0, -2, None], {}),
+                          "start=None-end": lambda g, dt: ([g.t([5, 2], dt), g.t([3, 2], dt), 0, None, 3], {}), "end>len": lambda g, dt: ([g.t([5, 2], dt), g.t([3, 2], dt), 0, 2, 100], {}),
+                          "empty-slice": lambda g, dt: ([g.t([5, 2], dt), g.t([0, 2], dt), 0, 2, 2], {})},
+        "copy": {"plain": lambda g, dt: (lambda s: ([g.t(s, dt), g.t(s, dt)], {}))(g.shape("nd")), "broadcast-src": lambda g, dt: ([g.t([3, 4], dt), g.t([4], dt)], {}),
+                 "0-d-src": lambda g, dt: ([g.t([3, 4], dt), g.t([], dt)], {}), "0-d": lambda g, dt: ([g.t([], dt), g.t([], dt)], {}),
+                 "non_blocking": lambda g, dt: ([g.t([2], dt), g.t([2], dt), True], {}), "size0": lambda g, dt: ([g.t([0, 2], dt), g.t([0, 2], dt)], {})},
+    }[kind]
+    first = next(iter(V))
+    for dt in dts:
+        yield S(f"{first}/{dt}", (lambda g, dt=dt: V[first](g, dt)))
+    for dt in lead(dts):
+        for v, f in V.items():
+            if v != first:
+                yield S(f"{v}/{dt}", (lambda g, dt=dt, f=f: f(g, dt)))
+    if kind == "copy":
+        for dt in lead(dts):
+            other = "i64" if dt != "i64" else "f32"
+            yield S(f"src-dtype-differs-integral/{dt}", (lambda g, dt=dt, other=other: ([g.t([3], dt), g.t([3], other, "pos").round() if is_float(other) else g.t([3], other, "prob")], {})))
+
+
+reg(_X, "aten::select_scatter", scatter_like, kind="select_scatter")
+reg(_X, "aten::slice_scatter", scatter_like, kind="slice_scatter")
+reg(_X, "aten::copy", scatter_like, kind="copy")
+
+
+def index_put(qn):
+    dts = adm(qn)
+    V = {
+        "one-index": lambda g, dt: (lambda x: ([x, [g.torch.tensor([0, 2])], g.t([2, 3], dt)], {}))(g.t([4, 3], dt)),
+        "one-index-broadcast-values": lambda g, dt: (lambda x: ([x, [g.torch.tensor([0, 2])], g.t([3], dt)], {}))(g.t([4, 3], dt)),
+        "scalar-values": lambda g, dt: (lambda x: ([x, [g.torch.tensor([1, 3])], g.t([], dt)], {}))(g.t([4, 3], dt)),
+        "two-indices": lambda g, dt: (lambda x: ([x, [g.torch.tensor([0, 2]), g.torch.tensor([1, 0])], g.t([2], dt)], {}))(g.t([4, 3], dt)),
+        "None-then-index": lambda g, dt: (lambda x: ([x, [None, g.torch.tensor([0, 2])], g.t([4, 2], dt)], {}))(g.t([4, 3], dt)),
+        "accumulate-distinct": lambda g, dt: (lambda x: ([x, [g.torch.tensor([0, 2])], g.t([2, 3], dt), True], {}))(g.t([4, 3], dt)),
+        "accumulate-duplicates": lambda g, dt: (lambda x: ([x, [g.torch.tensor([1, 1, 2])], g.t([3, 3], dt, "small"), True], {}))(g.t([4, 3], dt)),
+        "negative-index": lambda g, dt: (lambda x: ([x, [g.torch.tensor([-1, 0])], g.t([2, 3], dt)], {}))(g.t([4, 3], dt)),
+        "bool-mask": lambda g, dt: (lambda x: ([x, [g.torch.tensor([True, False, True, False])], g.t([3], dt)], {}))(g.t([4, 3], dt)),
+        "r1": lambda g, dt: (lambda x: ([x, [g.torch.tensor([3, 0])], g.t([2], dt)], {}))(g.t([5], dt)),
+        "empty-index": lambda g, dt: (lambda x: ([x, [g.torch.zeros([0], dtype=g.torch.int64)], g.t([0, 3], dt)], {}))(g.t([4, 3], dt)),
+    }
+    for dt in dts:
+        yield S(f"one-index/{dt}", (lambda g, dt=dt: V["one-index"](g, dt)))
+    for dt in lead(dts, ("f32", "i64")):
+        for v, f in V.items():
+            if v != "one-index":
+                yield S(f"{v}/{dt}", (lambda g, dt=dt, f=f: f(g, dt)))
+
+
+reg(_X, ["aten::index_put", "aten::_unsafe_index_put"], index_put)
+reg(_X, "aten::unfold", one_tensor, variants=[
+    ("plain", lambda g, dt: ([g.t([6, 3], dt), 0, 2, 2], {})), ("overlap", lambda g, dt: ([g.t([6], dt), 0, 3, 1], {})), ("negative-dim", lambda g, dt: ([g.t([2, 7], dt), -1, 3, 2], {})),
+    ("dim=-rank", lambda g, dt: ([g.t([5, 2], dt), -2, 2, 3], {})), ("size=len", lambda g, dt: ([g.t([4], dt), 0, 4, 1], {})), ("step>size", lambda g, dt: ([g.t([7], dt), 0, 2, 3], {})),
+    ("0-d", lambda g, dt: ([g.t([], dt), 0, 1, 1], {})), ("r3-middle", lambda g, dt: ([g.t([2, 5, 3], dt), 1, 2, 1], {})),
+])
+reg(_X, "aten::repeat_interleave.self_int", one_tensor, variants=[
+    ("dim=None", lambda g, dt: ([g.t([2, 3], dt), 2], {})), ("dim=0", lambda g, dt: ([g.t([2, 3], dt), 2, 0], {})), ("dim=-1", lambda g, dt: ([g.t([2, 3], dt), 3, -1], {})),
+    ("dim=-rank", lambda g, dt: ([g.t([2, 3], dt), 2, -2], {})), ("repeats=1", lambda g, dt: ([g.t([2, 3], dt), 1, 1], {})), ("0-d", lambda g, dt: ([g.t([], dt), 3], {})),
+    ("r1", lambda g, dt: ([g.t([3], dt), 2, 0], {})), ("size0", lambda g, dt: ([g.t([0, 2], dt), 2, 1], {})),
+    ("output_size", lambda g, dt: ([g.t([2, 3], dt), 2, 0], {"output_size": 4})),
+])
+
+
+def tensor_scalar(qn, kind):
+    tdt = core.env().tdt
+    val = {"bool": lambda g: g.r.random() < 0.5, "int": lambda g: g.r.randint(-5, 5), "float": lambda g: g.r.randint(-20, 20) / 8.0}[kind]
+    for dk in ["omitted", "None"] + list(DT):
+        if kind == "float" and dk in INTS:
+            continue
+        if kind == "int" and dk == "u8":
+            continue
+        yield S(f"dtype={dk}", (lambda g, dk=dk: ([val(g)], {} if dk == "omitted" else {"dtype": None if dk == "None" else tdt[dk]})))
+
+
+reg(_X, "aten::tensor.bool", tensor_scalar, kind="bool")
+reg(_X, "aten::tensor.int", tensor_scalar, kind="int")
+reg(_X, "aten::tensor.float", tensor_scalar, kind="float")
+def _cross_variants(positional_dim):
+    def d(args, dim):
+        return (args + [dim], {}) if positional_dim else (args, {"dim": dim})
+    sm = lambda g, s, dt: g.t(s, dt, "small")
+    v = [
+        ("last-dim", lambda g, dt: ([sm(g, [4, 3], dt), sm(g, [4, 3], dt)], {})),
+        ("dim=0", lambda g, dt: d([sm(g, [3, 4], dt), sm(g, [3, 4], dt)], 0)),
+        ("dim=-rank", lambda g, dt: d([sm(g, [3, 2], dt), sm(g, [3, 2], dt)], -2)),
+        ("r1", lambda g, dt: ([sm(g, [3], dt), sm(g, [3], dt)], {})),
+        ("broadcast", lambda g, dt: ([sm(g, [2, 1, 3], dt), sm(g, [4, 3], dt)], {})),
+    ]
+    if positional_dim:
+        v.append(("dim=None-first-size-3", lambda g, dt: ([sm(g, [3, 5, 3], dt), sm(g, [3, 5, 3], dt), None], {})))
+    return v
+
+
+reg(_X, "aten::cross", one_tensor, variants=_cross_variants(True), lead_only=("f32", "i64"))
+reg(_X, "aten::linalg_cross", one_tensor, variants=_cross_variants(False), lead_only=("f32", "i64"))
+reg(_X, "aten::einsum", one_tensor, variants=[
+    ("matmul", lambda g, dt: (["ij,jk->ik", [g.t([2, 3], dt, "small"), g.t([3, 4], dt, "small")]], {})),
+    ("transpose", lambda g, dt: (["ij->ji", [g.t([2, 3], dt, "small")]], {})), ("trace-like-sum", lambda g, dt: (["ij->", [g.t([2, 3], dt, "small")]], {})),
+    ("batch", lambda g, dt: (["bij,bjk->bik", [g.t([2, 2, 3], dt, "small"), g.t([2, 3, 2], dt, "small")]], {})),
+    ("outer", lambda g, dt: (["i,j->ij", [g.t([3], dt, "small"), g.t([4], dt, "small")]], {})),
+    ("diagonal", lambda g, dt: (["ii->i", [g.t([3, 3], dt, "small")]], {})), ("implicit-output", lambda g, dt: (["ij,jk", [g.t([2, 3], dt, "small"), g.t([3, 2], dt, "small")]], {})),
+    ("ellipsis", lambda g, dt: (["...ij,...jk->...ik", [g.t([2, 2, 3], dt, "small"), g.t([2, 3, 2], dt, "small")]], {})),
+], lead_only=("f32", "i64"))
+for _k, _n in ((1, "aten::atleast_1d"), (2, "aten::atleast_2d"), (3, "aten::atleast_3d")):
+    reg(_X, _n, one_tensor, variants=[("0-d", lambda g, dt: ([g.t([], dt)], {})), ("r1", lambda g, dt: ([g.t([3], dt)], {})), ("r2", lambda g, dt: ([g.t([2, 3], dt)], {})),
+                                      ("r3", lambda g, dt: ([g.t([2, 3, 2], dt)], {})), ("r4", lambda g, dt: ([g.t([2, 1, 3, 2], dt)], {})), ("size0", lambda g, dt: ([g.t([0], dt)], {}))], generic="r1")
